@@ -17,7 +17,7 @@ use simcore::{PropertyInfo, RunOutcome};
 struct StoreSim;
 
 const DB_REAL: &[&str] = &["sierradb::Database", "writer thread pool (real OS threads, gated at hook points)", "reader thread pool (1 thread)", "flusher pool + MPHF/bloom index files", "moka block cache", "bucket iterators", "seglog", "real files on tmpfs (/dev/shm)"];
-const DB_STUB: &[&str] = &["writer-pool syncer thread (the simulator sends the same FlushPoll at the deadlines the thread computes)", "kernel durability (fsync ledger + crash images built by the harness)"];
+const DB_STUB: &[&str] = &["writer-pool syncer thread in free mode (the simulator sends the same FlushPoll at the deadlines the thread computes); in gated mode (C04, C15, C16, C20) the thread runs its real loop and only its sleep is simulated", "kernel durability (fsync ledger + crash images built by the harness)"];
 const DB_ASSUME: &[&str] = &["reader_threads = 1 so reader job order is FIFO", "between two hook points a writer thread runs atomically", "a stream id is only used with partition keys of one bucket (stream lookup is per bucket)"];
 const SEGLOG_REAL: &[&str] = &["seglog::write::Writer", "seglog::read::Reader", "seglog::read::Iter", "seglog::parse::parse_record", "real file on tmpfs (/dev/shm)"];
 
